@@ -50,7 +50,7 @@ def nlp_diff(p):
         return dict(status="confirmed", failing_input=out["instance"], observed="specification transcribed silently (no exception)",
                     expected="rejected: " + reject, **out)
     opti = spec.opti
-    if "handles-are-distinct" in p.get("obligation", ""):
+    if "handles-are-distinct" in p.get("obligation", "") or p.get("force") == "handles":
         # every handle entry depends on exactly one solver variable, and no two handles share one
         N, M = spec.N, spec.M
         groups = []
@@ -80,7 +80,7 @@ def nlp_diff(p):
                                 expected="every collocation / node quantity has its own decision variable", **out)
                 owner[cols[0]] = label
         return dict(status="not-reproduced", detail="all %d handle entries are distinct solver variables" % len(owner), **out)
-    if "physical-is-declared-scale" in p.get("obligation", ""):
+    if "physical-is-declared-scale" in p.get("obligation", "") or p.get("force") == "scaling":
         from contracts.oracle import scaled_handles
         bad = []
         n = 0
@@ -211,7 +211,12 @@ def nlp_diff_any(p):
             if fam_filter and not any(f in label for f in fam_filter):
                 continue
             q = dict(p, prop=prop, label=label, harness="nlp_diff")
-            r = nlp_diff(q)
+            if p.get("force") == "add_variables":
+                r = nlp_diff(dict(q, force="scaling"))
+                if r.get("status") != "confirmed":
+                    r = nlp_diff(dict(q, force="handles"))
+            else:
+                r = nlp_diff(q)
             tried.append(label)
             if r.get("status") == "confirmed":
                 r["searched"] = tried
